@@ -333,7 +333,7 @@ def build(rng):
                 # abbreviation of a sibling structure
                 sibs = [(s2, ab) for s2 in all_structs if s2 is not t for (_f, ab, _t) in s2.fields if ab]
                 own = set(x for f in t.fields for x in f[:2] if x) | set(t.params)
-                sibs = [(s2, ab) for s2, ab in sibs if ab not in own]
+                sibs = [(s2, ab) for s2, ab in sibs if ab not in own and not (have_lib and ab == alias)]
                 if sibs:
                     s2, ab = rng.choice(sibs)
                     rows.append(("%slet %s = %s + 1" % (ind, nm, ab), []))
@@ -354,7 +354,7 @@ def build(rng):
                 if t.parent is not None and t.parent.kind == "struct" and t.parent.fields:
                     fn = t.parent.fields[0][0]
                     own = set(x for f in t.fields for x in f[:2] if x) | set(t.params)
-                    if fn not in own:
+                    if fn not in own and not (have_lib and fn == alias):
                         rows.append(("%slet %s = %s + 1" % (ind, nm, fn), []))
                         fault[0] = ("No candidate", fn)
                         fault_done = True
